@@ -26,6 +26,8 @@ deriving Repr, DecidableEq
 
 structure DState where
   poolN : Nat
+  user : Option String := none
+  password : Option String := none
   items : List (String × IState) := []
   /-- pool task number (1-based, submission order) -> (item, instance index within the item) -/
   tasks : List (String × Nat) := []
@@ -116,7 +118,7 @@ def gstep (s : DState) (tid : String) (op : OpClass) (lsnItem : String) : Option
     match op, s.mpc with
     | .threadStart, 0 => some ({ s with mpc := 1, wst := 1 }, [])
     | .put, 1 =>
-      let l := "1|" ++ writeCredentials none none
+      let l := "1|" ++ writeCredentials s.user s.password
       some ({ s with sendQ := s.sendQ ++ [l], mpc := 2, rst := 1 }, [.enqueue l])
     | _, _ => none
   else if tid = "R" then
